@@ -52,7 +52,10 @@ def recipe(rnd, nsurf=None, conics=True):
     ap = rnd.choice(["EPD", "EPD", "imageFNO", "objectNA"] if finite else ["EPD", "EPD", "imageFNO"])
     return {"epd": epd, "surf": surf, "stop": rnd.randint(1, n), "field": rnd.uniform(1.0, 6.0),
             "finite": finite, "obj_t": rnd.uniform(60, 400), "w": [0.4861, 0.5876, 0.6563],
-            "aperture": ap, "ap_value": None}
+            "aperture": ap, "ap_value": None,
+            # vignetting factors on the outer field (declared on one side of the axis, as usual):
+            # the mirrored field point -Hy must be compressed like +Hy
+            "vig": (rnd.uniform(0.05, 0.4), rnd.uniform(0.05, 0.4)) if rnd.random() < 0.3 else None}
 
 
 def aperture_value(rc):
@@ -103,7 +106,10 @@ def build(rc, scale=1.0, dummy=None):
         o.set_aperture(rc["aperture"], apv)         # dimensionless: the same for every scale
     o.set_field_type("angle")
     o.add_field(y=0.0)
-    o.add_field(y=rc["field"])
+    if rc.get("vig"):
+        o.add_field(y=rc["field"], vx=rc["vig"][0], vy=rc["vig"][1])
+    else:
+        o.add_field(y=rc["field"])
     for i, w in enumerate(rc["w"]):
         o.add_wavelength(w, is_primary=(i == 1))
     return o
